@@ -67,12 +67,21 @@ impl<'a> Visitor for Drv<'a> {
                 for b in bytes.iter_mut() {
                     *b = rng.byte();
                 }
-                let mode = rng.below(4);
+                let mut mode = rng.below(4);
+                // size() of the valid message the bytes are derived from (0: plain random bytes)
+                let mut base = 0usize;
                 if mode != 0 {
                     let pl = arena.place(l, 0, 16, Place::End);
                     pl.slice().copy_from_slice(&bytes);
                     let content = T::rand_content(rng, 3);
-                    let ok = matches!(guarded(|| T::new_in_place(pl.slice(), T::emp(&content, 0)).is_ok()), Obs::Ret(true));
+                    let made = guarded(|| T::new_in_place(pl.slice(), T::emp(&content, 0)).map(|x| x.size()).ok());
+                    let ok = matches!(made, Obs::Ret(Some(_)));
+                    if let Obs::Ret(Some(sz)) = made {
+                        base = sz;
+                    }
+                    if !ok {
+                        mode = 0;
+                    }
                     if ok {
                         bytes.copy_from_slice(pl.slice());
                         match mode {
@@ -104,8 +113,8 @@ impl<'a> Visitor for Drv<'a> {
                 });
                 match r {
                     Obs::Panic(m) => emit(out, json!({"ev": "panic", "what": "from_bytes", "id": id, "bs": bytes, "addr": addr, "msg": m}), events),
-                    Obs::Ret(Ok((read, size, bad))) => emit(out, json!({"ev": "dec", "id": id, "addr": addr, "bs": bytes, "ok": true, "kind": "", "read": read, "size": size, "inconsistent": bad}), events),
-                    Obs::Ret(Err(e)) => emit(out, json!({"ev": "dec", "id": id, "addr": addr, "bs": bytes, "ok": false, "kind": err_json(&e)["kind"], "read": [], "size": 0, "inconsistent": 0}), events),
+                    Obs::Ret(Ok((read, size, bad))) => emit(out, json!({"ev": "dec", "id": id, "addr": addr, "bs": bytes, "ok": true, "kind": "", "read": read, "size": size, "inconsistent": bad, "mode": mode, "base": base}), events),
+                    Obs::Ret(Err(e)) => emit(out, json!({"ev": "dec", "id": id, "addr": addr, "bs": bytes, "ok": false, "kind": err_json(&e)["kind"], "read": [], "size": 0, "inconsistent": 0, "mode": mode, "base": base}), events),
                 }
             }
             "emp" => {
@@ -125,6 +134,26 @@ impl<'a> Visitor for Drv<'a> {
                 }
                 if !pl.canaries_ok() {
                     emit(out, json!({"ev": "panic", "what": "canary", "id": id, "L": l, "addr": addr, "content": content, "msg": "bytes outside the slice changed"}), events);
+                }
+            }
+            "dflt" => {
+                if !T::has_default() {
+                    return;
+                }
+                let l = rng.below(min + 40);
+                let addr = if rng.chance(15) { rng.below(align.max(1)) } else { 0 };
+                let pl = arena.place(l, addr, 16, Place::End);
+                for b in pl.slice().iter_mut() {
+                    *b = rng.byte();
+                }
+                let r = guarded(|| T::default_in_place_(pl.slice()).map(|x| x.size()));
+                match r {
+                    Obs::Panic(m) => emit(out, json!({"ev": "panic", "what": "default_in_place", "id": id, "L": l, "addr": addr, "msg": m}), events),
+                    Obs::Ret(Ok(size)) => emit(out, json!({"ev": "dflt", "id": id, "L": l, "addr": addr, "ok": true, "kind": "", "post": pl.slice().to_vec(), "size": size}), events),
+                    Obs::Ret(Err(e)) => emit(out, json!({"ev": "dflt", "id": id, "L": l, "addr": addr, "ok": false, "kind": err_json(&e)["kind"], "post": [], "size": 0}), events),
+                }
+                if !pl.canaries_ok() {
+                    emit(out, json!({"ev": "panic", "what": "canary", "id": id, "L": l, "addr": addr, "msg": "bytes outside the slice changed"}), events);
                 }
             }
             _ => {
